@@ -1007,6 +1007,154 @@ fn snippet_index(ctx: &mut Ctx) {
     }
 }
 
+/// one step of a history: analyze `text` on the reused analyzer; `take = Some(k)` abandons the
+/// stream after k tokens (the stream is dropped without being drained)
+#[derive(Clone, Debug, Serialize, Deserialize)]
+struct Step {
+    text: String,
+    take: Option<usize>,
+}
+
+fn tokens_prefix(an: &mut TextAnalyzer, text: &str, take: Option<usize>) -> Result<Vec<Token>, ()> {
+    catch_unwind(AssertUnwindSafe(|| {
+        let mut out = vec![];
+        let mut ts = an.token_stream(text);
+        loop {
+            if let Some(k) = take {
+                if out.len() >= k {
+                    break; // dropped here, mid-stream
+                }
+            }
+            if !ts.advance() {
+                break;
+            }
+            out.push(ts.token().clone());
+        }
+        out
+    }))
+    .map_err(|_| ())
+}
+
+/// "the tokens of a text do not depend on what the analyzer processed before": ONE analyzer
+/// instance is reused over a sequence of texts, some streams abandoned after k tokens; every
+/// stream must give exactly (a prefix of) what a fresh analyzer gives for that text.
+fn check_history(ctx: &mut Ctx, tk: &Tk, fls: &[Fl], steps: &[Step]) {
+    let case = json!({"kind": "history", "tokenizer": tk, "filters": fls, "steps": steps});
+    let mut reused = build(tk, fls);
+    ctx.report.count("history:sequences");
+    let mut abandoned_before = false;
+    let mut nontrivial = false;
+    for (i, st) in steps.iter().enumerate() {
+        let fresh = match tokens_of(&mut build(tk, fls), &st.text) {
+            Ok(t) => t,
+            Err(_) => {
+                ctx.report.violation("oracle", "C19:tokenizer-panic", format!("token_stream of a fresh analyzer panicked: {:?}+{:?} on {}", tk, fls, short(&st.text)), tok_case(tk, fls, &st.text));
+                return;
+            }
+        };
+        let got = match tokens_prefix(&mut reused, &st.text, st.take) {
+            Ok(t) => t,
+            Err(_) => {
+                ctx.report.violation("oracle", "C19:tokens-depend-on-analyzer-history", format!("step {i}: the reused analyzer panicked on {} ({:?}+{:?}, earlier steps {:?})", short(&st.text), tk, fls, steps[..i].iter().map(|s| (short(&s.text), s.take)).collect::<Vec<_>>()), case);
+                return;
+            }
+        };
+        let expect: &[Token] = match st.take {
+            Some(k) => &fresh[..k.min(fresh.len())],
+            None => &fresh[..],
+        };
+        ctx.report.count(if st.take.is_some() { "history:stream-abandoned" } else { "history:stream-drained" });
+        if abandoned_before {
+            ctx.report.count("history:stream-after-an-abandoned-one");
+            nontrivial = nontrivial || !fresh.is_empty();
+        }
+        if got.as_slice() != expect {
+            // the contract on the text at hand, for the message
+            let bad = got.iter().find(|t| !(t.offset_from <= t.offset_to && t.offset_to <= st.text.len() && st.text.is_char_boundary(t.offset_from) && st.text.is_char_boundary(t.offset_to)));
+            ctx.report.violation("oracle", "C19:tokens-depend-on-analyzer-history",
+                format!("step {i}: the reused analyzer gives {} for {} but a fresh one gives {}{} ({:?}+{:?}, earlier steps {:?})",
+                    &enc_tokens(&got)[..enc_tokens(&got).len().min(120)], short(&st.text), &enc_tokens(expect)[..enc_tokens(expect).len().min(120)],
+                    match bad { Some(t) => format!("; token {}..{} is out of bounds or off a character boundary of the {}-byte text", t.offset_from, t.offset_to, st.text.len()), None => String::new() },
+                    tk, fls, steps[..i].iter().map(|s| (short(&s.text), s.take)).collect::<Vec<_>>()),
+                case);
+            return;
+        }
+        if let Some(k) = st.take {
+            if k < fresh.len() {
+                abandoned_before = true;
+                // abandoned inside a run of tokens that share their offsets = inside a split compound
+                if k > 0 && fresh[k - 1].offset_from == fresh[k].offset_from && fresh[k - 1].offset_to == fresh[k].offset_to {
+                    ctx.report.count("history:abandoned-mid-compound");
+                }
+            }
+        }
+    }
+    ctx.report.case(&format!("history|{:?}|{:?}|{:?}", tk, fls, steps.iter().map(|s| (&s.text, s.take)).collect::<Vec<_>>()), nontrivial);
+    // the fresh-analyzer token list of the last text against the model (and the full oracle)
+    if let Some(last) = steps.last() {
+        if last.text.len() <= 400 {
+            check_tokens(ctx, tk, fls, &last.text);
+        }
+    }
+}
+
+fn history_text(rng: &mut Rng) -> String {
+    if rng.chance(1, 4) {
+        let mut t = gen_text(rng);
+        let mut cut = t.len().min(200);
+        while !t.is_char_boundary(cut) {
+            cut -= 1;
+        }
+        t.truncate(cut);
+        return t;
+    }
+    // short texts around words that the dictionaries split completely
+    let n = 1 + rng.usize_below(4);
+    let mut s = String::new();
+    for i in 0..n {
+        if i > 0 {
+            s.push_str(*rng.pick(&[" ", " ", "\0", "-", "\t"]));
+        }
+        s.push_str(match rng.below(10) {
+            0..=2 => *rng.pick(&["dampfschifffahrt", "Dampfschifffahrt", "taxpayer", "schifffahrt", "abc", "cab", "café", "日本語", "dampfschiff"]),
+            3..=5 => *rng.pick(&ASCII_WORDS),
+            6..=7 => *rng.pick(&UNI_WORDS),
+            8 => *rng.pick(&EMOJI),
+            _ => "über",
+        });
+    }
+    s
+}
+
+fn history_case(ctx: &mut Ctx) {
+    let mut rng = ctx.rng.fork();
+    let mut tk = gen_tokenizer(&mut rng);
+    if let Tk::Ngram { min, max, prefix } = &tk {
+        if *max > 5 {
+            tk = Tk::Ngram { min: (*min).min(5), max: 5, prefix: *prefix };
+        }
+    }
+    let mut fls = gen_chain(&mut rng);
+    // the compound splitter keeps buffers in the tokenizer: make it frequent, in every position
+    if rng.chance(1, 2) {
+        let split = Fl::Split(vec!["dampf".into(), "schiff".into(), "fahrt".into(), "tax".into(), "payer".into(), "日本".into(), "語".into(), "caf".into(), "é".into(), "ab".into(), "c".into(), "über".into()]);
+        let at = rng.usize_below(fls.len() + 1);
+        fls.insert(at, split);
+        if rng.chance(1, 2) {
+            fls.insert(0, Fl::Lower);
+        }
+    }
+    let n = 2 + rng.usize_below(4);
+    let mut steps = vec![];
+    for _ in 0..n {
+        let text = history_text(&mut rng);
+        let ntok = tokens_of(&mut build(&tk, &fls), &text).map(|t| t.len()).unwrap_or(0);
+        let take = if rng.chance(1, 2) { Some(rng.usize_below(ntok + 2)) } else { None };
+        steps.push(Step { text, take });
+    }
+    check_history(ctx, &tk, &fls, &steps);
+}
+
 /// `PreTokenizedStream` hands the stored tokens through unchanged
 fn pretokenized_case(ctx: &mut Ctx) {
     let mut rng = ctx.rng.fork();
@@ -1087,6 +1235,12 @@ fn replay(ctx: &mut Ctx, case: &serde_json::Value) {
                 check_snippet(ctx, &tk, &fls, &text, &terms, m, "replay", None);
             }
         }
+        "history" => {
+            let tk: Tk = serde_json::from_value(case["tokenizer"].clone()).expect("tokenizer");
+            let fls: Vec<Fl> = serde_json::from_value(case["filters"].clone()).expect("filters");
+            let steps: Vec<Step> = serde_json::from_value(case["steps"].clone()).expect("steps");
+            check_history(ctx, &tk, &fls, &steps);
+        }
         "collapse" => {
             ctx.report.notes.push("collapse cases are regenerated from the seed".into());
         }
@@ -1104,6 +1258,7 @@ pub fn run(ctx: &mut Ctx) {
         "FacetTokenizer + filter chain (text buffer rewritten in place by filters) = model facetChain".into(),
         "SnippetGenerator::snippet: fragment, raw highlighted(), to_html() bytes (or panic) = model".into(),
         "collapse_overlapped_ranges = model collapse".into(),
+        "history independence: one analyzer reused over a sequence of texts, streams abandoned after k tokens, gives for every text (a prefix of) the fresh-analyzer token list, which is the stateless model's".into(),
         "SnippetGenerator::create over a real index = SnippetGenerator::new with 1/(1+doc_freq) scores".into(),
     ];
     if let Some(case) = ctx.replay.clone() {
@@ -1186,6 +1341,15 @@ pub fn run(ctx: &mut Ctx) {
     }
     for _ in 0..ctx.budget(300, 5_000) {
         pretokenized_case(ctx);
+    }
+    // corpus: a reused analyzer after a stream abandoned inside a split compound
+    {
+        let fls = vec![Fl::Lower, Fl::Split(vec!["dampf".into(), "schiff".into(), "fahrt".into(), "über".into()])];
+        let steps = vec![Step { text: "Dampfschifffahrt".into(), take: Some(1) }, Step { text: "über".into(), take: None }, Step { text: "x dampfschiff".into(), take: Some(2) }, Step { text: "".into(), take: None }];
+        check_history(ctx, &Tk::Simple, &fls, &steps);
+    }
+    for _ in 0..ctx.budget(4_000, 80_000) {
+        history_case(ctx);
     }
     ctx.report.notes.push(format!("timing (informative only): snippet + collapse cases {:.1}s", t0.elapsed().as_secs_f64()));
 }
